@@ -543,3 +543,37 @@ def op_api_lint(node: Any, sql: str, kwargs: Optional[dict] = None) -> dict:
         out["exception"] = _exc_row(e)
     out["mon"] = _mon_take()
     return out
+
+
+# ---- discovery (C25) -------------------------------------------------------------
+
+
+def op_discover(node: Any, path: str, ignore_files: bool = True, exts: Optional[list] = None,
+                ignore_non_existent_files: bool = False, via: str = "func") -> dict:
+    from sqlfluff.core.linter.discovery import paths_from_path
+
+    out: dict[str, Any] = {}
+    try:
+        if via == "func":
+            kw: dict[str, Any] = {}
+            if exts is not None:
+                kw["target_file_exts"] = tuple(exts)
+            res = paths_from_path(path, ignore_non_existent_files=ignore_non_existent_files, ignore_files=ignore_files, **kw)
+            out["paths"] = list(res)
+        else:
+            # through the Linter: what actually gets linted
+            install_monitors(node)
+            _mon_reset()
+            ov = {"dialect": "ansi", "rules": "LT12"}
+            if exts is not None:
+                ov["sql_file_exts"] = ",".join(exts)
+            linter = _mk_linter(node, ov, None)
+            r = linter.lint_paths((path,), ignore_files=ignore_files, ignore_non_existent_files=ignore_non_existent_files)
+            out["paths"] = sorted(rec["filepath"] for rec in r.as_records())
+            _mon_reset()
+    except SimCrash:
+        raise
+    except Exception as e:
+        out["exception"] = _exc_row(e)
+    out["cwd"] = os.getcwd()
+    return out
